@@ -180,10 +180,16 @@ class LineRunner(Runner):
     def wire_stage(self, st):
         self.wire_stage_inner(st)
         if st.unopenable:
-            # the diagnostic is written to wherever descriptor 2 points by then
-            for fd in (1, 2):
-                if isinstance(st.objs.get(fd), Pipe):
-                    st.objs[fd].opaque = True
+            self.diagnostic_may_land_anywhere(st)
+
+    def diagnostic_may_land_anywhere(self, st):
+        """the diagnostic of a failed open is written to wherever descriptor 2 points at that moment
+        (possibly the stage's output pipe after an earlier `2>&1`): such content is not modelled"""
+        for fd in (1, 2):
+            if isinstance(st.objs.get(fd), Pipe):
+                st.objs[fd].opaque = True
+        if isinstance(st.out, Pipe):
+            st.out.opaque = True
 
     def wire_stage_inner(self, st):
         Runner.wire_stage(self, st)
